@@ -255,7 +255,7 @@ var c19ParseOrdinary = []rune{'a', 'b', 'k', 'z', 'A', 'Z', 'x', 'u', 'c', 'e', 
 var c19ParseEscTails = []string{
 	// character escapes
 	"a", "b", "e", "f", "n", "r", "t", "v", "x41", "x4a", "xC9", "x4", "x", "xg1", "x4g", "x{41}", "x{e9}", "x{10FFFF}", "x{110000}", "x{}", "x{4g}", "x{41", "x{", "x{0000041}",
-	"u0041", "u00e9", "u00C9", "u004", "u", "uD800", "u{41}", "u{e9}", "u{110000}", "u{}", "u{4g}", "u{41", "u01c5",
+	"u0041", "u00e9", "u00C9", "u004", "u", "uD800", "u{41}", "u{e9}", "u{110000}", "u{}", "u{4g}", "u{41", "u01c5", "u0130", "u212A", "u212a", "u1e9e", "u03f4", "x{130}", "x{212A}",
 	"0", "00", "000", "0000", "101", "7", "08", "377", "400", "777", "40", "41", "47", "401", "18", "1", "9", "10", "99", "2147483647", "2147483648", "99999999999",
 	"cA", "ca", "cz", "c@", "c_", "c", "c!", "c[", "c\\", "c`", "c{",
 	// assertions, classes, properties
@@ -311,7 +311,7 @@ type c19ParseCase struct {
 var c19ParseCorpus = []string{
 	``, `a`, `ab`, `a\.b`, `\a\e\f\n\r\t\v\b`, `\x41\u0042\x{43}\103\cD`, `\x{e0001}`, `\0`, `\08`, `\400`, `\1`, `\10`, `\18`, `\8`, `\9`,
 	`\x4`, `\x{}`, `\x{110000}`, `\x{41`, `\u004`, `\c`, `\c!`, `\q`, `\`, `a\`, `\k<0>`, `\k<1>`, `\k<a>`, `\k<a`, `\k`, `\<0>`, `\'0'`, `\<a>`, `\<a`, `\<`, `\k<99999999999>`, `\99999999999`,
-	`\A\z\Z\G\b\B`, `\d\d\d`, `\w\W\s\S\d\D`, `\d\w\w\d`, `aa`, `aA`, `a1`, `12`, `\x41a`, `ĸĸ`, `ǅǆ`, `KK`, `σς`,
+	`\A\z\Z\G\b\B`, `\d\d\d`, `\w\W\s\S\d\D`, `\d\w\w\d`, `aa`, `aA`, `a1`, `12`, `\x41a`, `ĸĸ`, `ǅǆ`, `KK`, `σς`, `\u0130`, `\u212A\x{212a}k`, `\u03f4`,
 	`a b`, `a #c` + "\n" + `b`, ` {b`, `xa {b`, `a {1}`, `\a {`, `a{`, `a{1`, `a{1}`, `a{,1}`, `{`, `{1}`, `\pL`, `\p{L}`, `\p`, `\P{`,
 	`a(`, `\q(`, `\x4(`, `a)`, `a[`, `a*`, `a|b`, `^a$`, `a.`, `\(\)\[\]`, `\#\ `, `# c`, `\u{41}`, `\u{}`, `\x{41}{2`,
 }
